@@ -185,10 +185,10 @@ prop(
     explanation="Static analysis, universal part on the macro crate's own MIR: C05-R1 in bind_query_params a parameter binds to an archetype iff (Component) !cfg_enabled or contains_component(archetype, name), (Entity/EntityDirect<A>) !cfg_enabled or archetype.name == A, "
     "(wildcard/dynamic kinds) always, (OneOf) bind_one_of is Ok(Some(_)); bound is cleared per archetype and the archetype is kept iff bound.len()==params.len(); C05-R2 contains_component compares whole Strings over all components; "
     "C05-R3 bind_one_of loops all members, second hit is an error, returns the unique hit; C05-R4 each generator emits per archetype iff bound_params.get(&name) is Some and errors when nothing matched. "
-    "Sampled part: static analysis of the specimen expansions against an independent matcher (hand-written from the specimen declaration). Decides: C05-R7 for each of 26 query sites over 5 macros, the set of world fields walked / match arms present "
+    "Sampled part: static analysis of the specimen expansions against an independent matcher (hand-written from the specimen declaration). Decides: C05-R7 for each of 29 query sites over 5 macros, the set of world fields walked / match arms present "
     "equals the set of archetypes the matcher computes (components, OneOf with exactly one hit, typed entity parameters, cfg-disabled parameters); C05-R5 each find arm fetches from the archetype of its own variant, "
     "the closure only runs inside .map of that fetch, and the fall-through arm returns None without running a closure; C05-R9 an iter expansion ends only by Break or after the loop of every matched archetype was entered and exhausted (no early way out that skips later matched archetypes). "
-    "Compile-time witnesses (E4, generated): C05-R8 a seeded corpus of generated (world, query) programs over five worlds with overlapping, prefix-named component sets and all five query macros (quick 600, thorough 6000 queries): rustc's type checker decides that the closure body "
+    "Compile-time witnesses (E4, generated): C05-R8 a seeded corpus of generated (world, query) programs over five worlds with overlapping, prefix-named component sets and all five query macros (quick 720, thorough 21600 queries in three independent samples): rustc's type checker decides that the closure body "
     "is instantiated for exactly the oracle's archetypes (an `impl Seen<MatchedArchetype>` per copy of the body against a `Seen<A0>+Seen<A1>..` bound for the iter family; an `Allowed` marker bound for over-matching in all five), that each parameter has its own column's type "
     "(OneOf through an associated type chosen by the oracle), and that empty match sets and ambiguous OneOf are rejected with the generator's message. The oracle is written from the property text."
     "Reporting policy: a finding of the structural rules on the generator's own code (its MIR and template tokens: shape recognisers) is reported only if the generated-program corpus of this property also reports a difference or did not run in full; otherwise it is recorded in the evidence as an unconfirmed structural finding (a behaviour-preserving refactoring of the generator is not an alarm).",
